@@ -139,14 +139,21 @@ func fullState(a *inst.Inst) string {
 }
 
 func loadRaw(a *inst.Inst, ctx context.Context, pbdata []byte) error {
+	_, err := loadRawKeep(a, ctx, pbdata)
+	return err
+}
+
+// loadRawKeep also returns the decoded update, so that the very same in-memory object can be delivered again.
+func loadRawKeep(a *inst.Inst, ctx context.Context, pbdata []byte) (*snapshot.Update, error) {
 	snap, err := snapshot.LoadData(gz(pbdata))
 	if err != nil {
-		return fmt.Errorf("decode: %w", err)
+		return nil, fmt.Errorf("decode: %w", err)
 	}
 	name := snapshot.Name(inst.DBName, "r", "GX", time.Unix(0, int64(clock)))
 	ni, _ := snapshot.ParseName(name)
-	_, _, err = a.S.LoadOnce(ctx, a.Env.Env, "r", snapshot.Update{Snapshot: snap, NameInfo: ni}, header.TxnID(a.Env.LastTxnID()))
-	return err
+	u := &snapshot.Update{Snapshot: snap, NameInfo: ni}
+	_, _, err = a.S.LoadOnce(ctx, a.Env.Env, "r", *u, header.TxnID(a.Env.LastTxnID()))
+	return u, err
 }
 
 func main() {
@@ -191,7 +198,8 @@ func main() {
 			ctx = context.Background()
 		}
 		var err error
-		ok := r.Guard(pa.Name, "panic-during-merge:"+label, map[string]any{"native": native, "case": label}, func() { err = loadRaw(a, ctx, data) })
+		var upd *snapshot.Update
+		ok := r.Guard(pa.Name, "panic-during-merge:"+label, map[string]any{"native": native, "case": label}, func() { upd, err = loadRawKeep(a, ctx, data) })
 		pa.Executions++
 		pa.Transitions++
 		if !ok {
@@ -208,6 +216,17 @@ func main() {
 			classes[mode+"/"+cls+"/refused"]++
 			if after != before {
 				r.Violate(pa.Name, "partial-merge-after-error:"+cls+":"+mode, fmt.Sprintf("%s (%s): LoadOnce returned %v but the LMDB changed:\n--- before\n%s--- after\n%s", label, mode, err, clip(before), clip(after)), rep)
+			}
+			// a merge that failed for a passing reason (cancellation) is tried again with the very same update object
+			// (the receiver hands out the same decoded snapshot): it must then be merged completely
+			if cls == "cancel" && upd != nil && o.garbageAt == "" {
+				_, _, err2 := a.S.LoadOnce(context.Background(), a.Env.Env, "r", *upd, header.TxnID(a.Env.LastTxnID()))
+				pa.Transitions++
+				if err2 != nil {
+					r.Violate(pa.Name, "redelivered-update-refused:"+mode, fmt.Sprintf("%s (%s): second LoadOnce of the same update: %v", label, mode, err2), rep)
+				} else if want := reference(native, data); world.RawString(a.Env.RawDump()) != want {
+					r.Violate(pa.Name, "redelivered-update-merged-partially:"+mode, fmt.Sprintf("%s (%s): the same update object merged again after the failed attempt does not give the fully merged state:\n--- got\n%s--- full merge\n%s", label, mode, clip(world.RawString(a.Env.RawDump())), clip(want)), rep)
+				}
 			}
 		} else {
 			classes[mode+"/"+cls+"/merged"]++
@@ -231,6 +250,15 @@ func main() {
 				run(native, fmt.Sprintf("unknown-transform-fv%d@dbi%d", fv, j), setupOpt{}, func() ([]byte, context.Context) {
 					s := incoming(fv, 1, 0)
 					s.DBIs[jj].Transform = "rot13"
+					return s.ToMsg().Enc(), nil
+				}, true)
+			}
+			// spellings that are close to a known transform are unknown transforms all the same
+			for vi, tr := range []string{"DupSort_Hack_V1", " dupsort_hack_v1", "dupsort_hack_v1 ", " "} {
+				tr := tr
+				run(native, fmt.Sprintf("unknown-transform-spelling%d@dbi%d", vi, j), setupOpt{}, func() ([]byte, context.Context) {
+					s := incoming(3, 1, 0)
+					s.DBIs[jj].Transform = tr
 					return s.ToMsg().Enc(), nil
 				}, true)
 			}
